@@ -317,6 +317,12 @@ def run_worker(job, r):
         if b in NOT_JUDGED:
             r.count('not_judged_%s' % b)
             continue
+        if b == 'garbled' and version == 1 and rc == 0:
+            # PDU version 1 authenticates header + payload only: a flipped flag bit in the outer TLV header or in the MAC element's header changes
+            # nothing that is delivered (C06 counts the same case as v1_unauthenticated_bit_same_content); the result is judged as an honest one,
+            # i.e. it has to be exactly the extension the reference extender's chain gives
+            r.count('v1_unauthenticated_bit_judged_as_honest')
+            b = 'honest'
         must_fail = b not in HONEST or how in ('to-earlier', 'pubrec-wrong-hash')
         if how == 'to-equal' and t == 0:
             must_fail = True
